@@ -181,7 +181,7 @@ def s_trash():
         st.tuples(st.just("advance"), st.sampled_from([0.35, 1.1, 6.0, 11.0])),
         st.tuples(st.just("session_shutdown")),
         st.tuples(st.just("renew")),
-        st.tuples(st.just("kill"), st.integers(0, 2), st.sampled_from(["close", "reset"])),
+        st.tuples(st.just("kill"), st.integers(0, 2), st.sampled_from(["close", "reset", "eof"])),
         st.tuples(st.just("borrow_dead"), st.integers(0, 2)),
     )
     ev = st.tuples(st.integers(3, 7), st.sampled_from([11.0, 11.0, 6.0]), st.lists(tail, min_size=2, max_size=14)).map(
@@ -204,7 +204,7 @@ def s_v3trash():
         st.tuples(st.just("advance"), st.sampled_from([0.35, 0.35, 1.1, 6.0])),
         st.tuples(st.just("session_shutdown")),
         st.tuples(st.just("renew")),
-        st.tuples(st.just("kill"), st.integers(0, 2), st.sampled_from(["close", "reset"])),
+        st.tuples(st.just("kill"), st.integers(0, 2), st.sampled_from(["close", "reset", "eof"])),
         st.tuples(st.just("delay"), st.sampled_from([0.0, 0.2, 0.6])),
         st.tuples(st.just("borrow_dead"), st.integers(0, 2)),
     )
@@ -222,7 +222,7 @@ def s_v3refuse():
         st.tuples(st.just("answer"), st.integers(0, 7), st.sampled_from(["rows", "rows", "void", "drop", "overloaded"])),
         st.tuples(st.just("advance"), st.sampled_from([0.05, 0.35, 0.35, 0.75, 1.1])),
         st.tuples(st.just("refuse"), st.integers(1, 2)),
-        st.tuples(st.just("kill"), st.integers(0, 2), st.sampled_from(["close", "reset"])),
+        st.tuples(st.just("kill"), st.integers(0, 2), st.sampled_from(["close", "reset", "eof"])),
         st.tuples(st.just("session_shutdown")),
     )
 
@@ -241,7 +241,7 @@ def s_v3refuse():
             ev += [["advance", 0.35]]
         ev += [["delay", d], ["refuse", draw(st.integers(1, 2))]]
         if start == "failure":
-            ev += [["kill", 0, draw(st.sampled_from(["close", "reset"]))]]
+            ev += [["kill", 0, draw(st.sampled_from(["close", "reset", "eof"]))]]
         ev += [["send", draw(st.sampled_from([0, 3]))]]          # the borrow that starts the replacement
         for _ in range(draw(st.integers(1, 3))):                 # borrows while attempts fail / the retry is pending
             ev += [["advance", draw(st.sampled_from([d / 2, d + 0.05, d + 0.15, 0.35]))],
